@@ -194,8 +194,37 @@ class PolyCtx:
             if d.op in ('phi', 'select') and d.res in self.choice:
                 return self.ptr(self.choice[d.res], depth + 1)
             if d.op == 'phi':
+                # a pointer phi whose incoming values all point into one object is (that object's root, offset atom %phi):
+                # walking pointers become ordinary induction variables measured in bytes from the root
+                R = self.phi_root(d)
+                if R is not None:
+                    return R, Poly.atom(d.res) * self.phi_scale(d)      # the atom counts elements of the phi's pointee type
                 return d.res, Poly()
         return self.C.val(v), Poly()
+
+    @staticmethod
+    def phi_scale(phi):
+        return sizeof(phi.ty[:-1]) or 1
+
+    def phi_root(self, phi):
+        pr = self.__dict__.setdefault('_proot', {})
+        if phi.res in pr:
+            return None if pr[phi.res] == '__pending__' else pr[phi.res]
+        pr[phi.res] = '__pending__'
+        roots = set()
+        for v, _ in phi.incoming:
+            if v == 'null' or v == 'undef':
+                roots.add(None); continue
+            r, o = self.ptr(v)
+            if r == phi.res:
+                continue                      # the phi itself advanced: same object
+            roots.add(r)
+        R = next(iter(roots)) if len(roots) == 1 and None not in roots else None
+        if R is not None and R.startswith('%'):
+            R = None                          # unresolved inner phi: keep this one opaque
+        pr[phi.res] = R
+        self._memo.clear()
+        return R
 
     def show(self, p):
         return str(p)
